@@ -422,6 +422,7 @@ fn sanitize(s: &str) -> String {
 
 thread_local! {
     static LAST_PANIC: RefCell<Option<(String, String)>> = RefCell::new(None);
+    static IN_GUARD: std::cell::Cell<u32> = std::cell::Cell::new(0);
 }
 
 static HOOK_INSTALLED: Mutex<bool> = Mutex::new(false);
@@ -447,15 +448,18 @@ pub fn install_panic_hook() {
         } else {
             "<non-string panic>".to_string()
         };
-        // A panic inside a dependency (bnum overflow checks, slice indexing in core, ...)
-        // is attributed to the innermost yamaquasi frame as well.
-        let loc = if !loc.starts_with("src/") {
+        // The site used in violation keys is "<file>@<innermost yamaquasi function>": stable
+        // under unrelated edits (line numbers are kept in the message only), and a panic inside
+        // a dependency (bnum overflow checks, slice indexing in core) is attributed to its caller.
+        let line = info.location().map(|l| l.line()).unwrap_or(0);
+        let file = loc.rsplit_once(':').map(|x| x.0.to_string()).unwrap_or(loc.clone());
+        let caller = {
             let bt = std::backtrace::Backtrace::force_capture().to_string();
             let mut caller = "?".to_string();
             for l in bt.lines() {
                 let l = l.trim();
                 if let Some(i) = l.find("yamaquasi::") {
-                    if l[..i].trim_end_matches(' ').ends_with(':') || l[..i].contains(": ") {
+                    if l[..i].contains(": ") && !l.contains("ymq_verif") {
                         let mut name = l[i..].to_string();
                         if let Some(j) = name.rfind("::h") {
                             if name.len() - j == 19 {
@@ -467,10 +471,13 @@ pub fn install_panic_hook() {
                     }
                 }
             }
-            format!("{}@{}", loc, caller)
-        } else {
-            loc
+            caller
         };
+        let msg = format!("[line {}] {}", line, msg);
+        let loc = format!("{}@{}", file, caller);
+        if IN_GUARD.with(|g| g.get()) == 0 && std::thread::current().name() == Some("main") {
+            eprintln!("HARNESS PANIC (outside a guarded call) at {}: {}", loc, msg);
+        }
         if std::env::var("VERIF_BACKTRACE").is_ok() {
             eprintln!("panic at {}: {}\n{}", loc, msg, std::backtrace::Backtrace::force_capture());
         }
@@ -517,7 +524,10 @@ impl Panicked {
 pub fn guarded<T>(f: impl FnOnce() -> T) -> Result<T, Panicked> {
     install_panic_hook();
     LAST_PANIC.with(|p| *p.borrow_mut() = None);
-    match std::panic::catch_unwind(std::panic::AssertUnwindSafe(f)) {
+    IN_GUARD.with(|g| g.set(g.get() + 1));
+    let res = std::panic::catch_unwind(std::panic::AssertUnwindSafe(f));
+    IN_GUARD.with(|g| g.set(g.get() - 1));
+    match res {
         Ok(v) => Ok(v),
         Err(_) => {
             let any = LAST_PANIC_ANY.lock().ok().and_then(|mut g| g.take());
@@ -544,4 +554,58 @@ pub fn mix64(mut z: u64) -> u64 {
     z = (z ^ (z >> 30)).wrapping_mul(0xbf58476d1ce4e5b9);
     z = (z ^ (z >> 27)).wrapping_mul(0x94d049bb133111eb);
     z ^ (z >> 31)
+}
+
+// ---------------------------------------------------------------- watchdog runner
+
+/// Runs `f(i)` for every i in 0..n on `threads` worker threads with a per-case wall cap.
+/// Returns the results, or Err(i) for the first case that exceeded the cap (its thread is
+/// left running detached; the process must exit through std::process::exit afterwards).
+pub fn run_watched<R: Send + 'static>(
+    n: usize,
+    threads: usize,
+    cap: std::time::Duration,
+    f: std::sync::Arc<dyn Fn(usize) -> R + Send + Sync>,
+) -> Result<Vec<Option<R>>, usize> {
+    use std::sync::atomic::{AtomicUsize, Ordering};
+    use std::sync::Arc;
+    let next = Arc::new(AtomicUsize::new(0));
+    let results: Arc<Mutex<Vec<Option<R>>>> = Arc::new(Mutex::new((0..n).map(|_| None).collect()));
+    // per-thread (current case + 1, start instant)
+    let slots: Arc<Vec<Mutex<(usize, std::time::Instant)>>> =
+        Arc::new((0..threads).map(|_| Mutex::new((0usize, std::time::Instant::now()))).collect());
+    let done = Arc::new(AtomicUsize::new(0));
+    for t in 0..threads {
+        let (next, results, slots, done, f) = (next.clone(), results.clone(), slots.clone(), done.clone(), f.clone());
+        std::thread::Builder::new()
+            .stack_size(32 << 20)
+            .spawn(move || {
+                loop {
+                    let i = next.fetch_add(1, Ordering::SeqCst);
+                    if i >= n {
+                        break;
+                    }
+                    *slots[t].lock().unwrap() = (i + 1, std::time::Instant::now());
+                    let r = f(i);
+                    *slots[t].lock().unwrap() = (0, std::time::Instant::now());
+                    results.lock().unwrap()[i] = Some(r);
+                }
+                done.fetch_add(1, Ordering::SeqCst);
+            })
+            .expect("spawn watched worker");
+    }
+    loop {
+        if done.load(Ordering::SeqCst) == threads {
+            break;
+        }
+        for s in slots.iter() {
+            let g = s.lock().unwrap();
+            if g.0 != 0 && g.1.elapsed() > cap {
+                return Err(g.0 - 1);
+            }
+        }
+        std::thread::sleep(std::time::Duration::from_millis(50));
+    }
+    let mut g = results.lock().unwrap();
+    Ok(std::mem::take(&mut *g))
 }
